@@ -27,22 +27,24 @@ ASSUMPTIONS = [
     "a workbook cannot tell an empty text cell from no cell: rows are padded (or cut) to the right-most non-empty column "
     "and the sheet ends with its last row holding a non-empty cell (peer-produced workbooks); workbooks written by "
     "XlsxRowWriter keep empty strings as cells, there only the padding of every row to the sheet width applies",
-    "serials are generated from whole seconds, so the documented rendering is exact",
+    "serials are whole seconds, some with a fraction below half a second added (clock timestamps): the documented "
+    "rendering shows the nearest whole second",
 ]
 COMPONENTS = {
     "real": ["cutplace.rowio.excel_rows/_excel_cell_value/XlsxRowWriter", "cutplace.validio.Reader", "xlrd 1.2.0",
              "xlsxwriter (in_memory forced by the seam)", "zipfile"],
     "stub": ["XLSX peer (encoder)", "SimFS/SimRaw"],
 }
-PROBES_REQUIRED = ["date-system-1904", "other-date-system-read-first", "kind:s", "kind:ss", "kind:n-int", "kind:n-float", "kind:b", "kind:d", "kind:t", "kind:date", "gap",
+PROBES_REQUIRED = ["fractional-second", "date-system-1904", "other-date-system-read-first", "kind:s", "kind:ss", "kind:n-int", "kind:n-float", "kind:b", "kind:d", "kind:t", "kind:date", "gap",
                    "sheet:2", "sheet:3", "missing-sheet", "via:reader", "via:direct", "writer-round-trip", "write_rows",
                    "ragged-rows", "big-integer"]
 EPOCHS = {False: datetime.datetime(1899, 12, 30), True: datetime.datetime(1904, 1, 1)}
 
 
-def _serial(moment, date1904=False):
+def _serial(moment, date1904=False, fraction=0.0):
+    """Serial of ``moment`` plus ``fraction`` seconds (|fraction| < 0.5: it still renders as that whole second)."""
     delta = moment - EPOCHS[date1904]
-    return repr(delta.days + delta.seconds / 86400.0)
+    return repr(delta.days + (delta.seconds + fraction) / 86400.0)
 
 
 def draw_cell(rng):
@@ -63,7 +65,8 @@ def draw_cell(rng):
     # 1900-03-01 .. 1904-01-01 stretch that only the 1900 system can hold (used with that system only)
     if kind == "d":
         moment = datetime.datetime(1904, 1, 2) + datetime.timedelta(days=rng.randrange(0, 2957000), seconds=rng.randrange(1, 86400))
-        return ["d", moment.strftime("%Y-%m-%d %H:%M:%S")]
+        # timestamps taken from a clock carry fractions of a second; the text still shows whole seconds
+        return ["d", moment.strftime("%Y-%m-%d %H:%M:%S"), rng.choice([0.0, 0.0, 0.25, 0.3, -0.3])]
     if kind == "date":
         moment = datetime.datetime(1904, 1, 2) + datetime.timedelta(days=rng.randrange(0, 2957000))
         if rng.random() < 0.15:
@@ -71,7 +74,7 @@ def draw_cell(rng):
         return ["date", moment.strftime("%Y-%m-%d %H:%M:%S")]
     if kind == "t":
         seconds = rng.randrange(1, 86400)
-        return ["t", str(datetime.time(seconds // 3600, seconds // 60 % 60, seconds % 60))]
+        return ["t", str(datetime.time(seconds // 3600, seconds // 60 % 60, seconds % 60)), rng.choice([0.0, 0.0, 0.25, -0.3])]
     return None
 
 
@@ -79,11 +82,13 @@ def peer_cell(cell, date1904):
     if cell is None:
         return None
     kind = cell[0]
+    fraction = cell[2] if len(cell) > 2 else 0.0
     if kind in ("d", "date"):
-        return (kind, _serial(datetime.datetime.strptime(cell[1], "%Y-%m-%d %H:%M:%S"), date1904))
+        return (kind, _serial(datetime.datetime.strptime(cell[1], "%Y-%m-%d %H:%M:%S"), date1904,
+                              fraction if kind == "d" else 0.0))
     if kind == "t":
         hours, minutes, seconds = [int(part) for part in cell[1].split(":")]
-        return ("t", repr((hours * 3600 + minutes * 60 + seconds) / 86400.0))
+        return ("t", repr((hours * 3600 + minutes * 60 + seconds + fraction) / 86400.0))
     return tuple(cell[:2])
 
 
@@ -222,6 +227,8 @@ def execute(scenario):
                 row_kinds.append("gap")
                 continue
             kind = cell[0]
+            if kind in ("d", "t") and len(cell) > 2 and cell[2]:
+                result.probe("fractional-second")
             if kind == "n":
                 is_int = float(cell[1]) == int(float(cell[1])) if abs(float(cell[1])) < 1e300 else False
                 kind = "n-int" if is_int else "n-float"
